@@ -44,6 +44,9 @@ def parseOp (t : List String) : Option Op :=
   | ["inst", c] => do pure (.newInst (← nat? c))
   | ["read", i, n] => do pure (.read (← nat? i) (← nat? n))
   | ["assign", i, n, v] => do pure (.assign (← nat? i) (← nat? n) (← parsePyVal v))
+  -- 5th token = kind of python callable (lambda, bound method, partial, …): the model knows a callable only by the
+  -- number of parameters `inspect.signature` reports for it (`c0` / `c1` / `c2` in the value token), so it is ignored
+  | ["assign", i, n, v, _kind] => do pure (.assign (← nat? i) (← nat? n) (← parsePyVal v))
   | ["delete", i, n] => do pure (.delete (← nat? i) (← nat? n))
   | ["reeval", i] => do pure (.reevaluate (← nat? i))
   | ["clear", i] => do pure (.clearCache (← nat? i))
